@@ -107,6 +107,9 @@ func H_C09_spellings() {
 var c09Nest = [][3]string{
 	{"(", "a", ")[:]"}, {"reverse(", "a", ")[:]"}, {"(", "a", ")[*]"}, {"(", "a", ")[]"}, {"[", "a", "][0]"}, {"not_null(", "a", ")"},
 	{"(", "a", " | @)"}, {"(", "a", "[?@ || `true`])"}, {"to_array(", "a", ")[0:]"}, {"{k: ", "a", "}.k"}, {"(let $v = ", "a", " in $v)"}, {"sort(", "a", ")[:]"}, {"(", "a", ")[::1]"}, {"map(&@, ", "a", ")[:]"},
+	// a bound value that is read more than once is still evaluated once per let
+	{"(let $v = ", "a", " in ($v && $v))"}, {"(let $v = ", "a", " in [$v, $v][1])"}, {"(let $v = ", "a", ", $w = `1` in {p: $v, q: $v}.q)"}, {"(let $v = ", "a", " in $v[?$v])"},
+	{"map(&[@, @][0], ", "a", ")"}, {"(", "a", " | [@, @][1])"}, {"(let $v = ", "a", " in (let $w = $v in [$w, $v, $w][2]))"},
 }
 
 func H_C09_nesting() {
